@@ -22,8 +22,29 @@ PREFILTER = vjudge.prefilter
 
 
 def gen(rng, tier, n):
+    from .. import gen_schemaval as gsv
+    from . import c06, c19
+    fields = gsv.fetch_fields(core)
     ops = []
     while len(ops) < n:
+        r0 = rng.random()
+        if r0 < 0.08:
+            # one Validate call that reaches one $dynamicRef through several dynamic scopes (sibling properties, ranged in random order)
+            o = c06.fork(rng) if rng.random() < 0.4 else c06.topo(rng)
+            ops.append({"op": "purity", "args": {"schema": o["args"]["schema"], "docs": o["args"]["docs"], "base": o["args"]["base"],
+                                                  "insts": o["args"]["insts"][-8:]}, "meta": {"kw": 5, "dynamic": True}})
+            continue
+        if r0 < 0.2:
+            # Marshal on Schema values (PropertyOrder with names that are not properties, nested schemas, Extra): bytes stable, value untouched
+            if rng.random() < 0.5:
+                props = rng.sample(c19.NAMES, rng.randint(0, 4))
+                order = [rng.choice(props + ["zz", "q", "stale", "gone"]) for _ in range(rng.randint(0, 6))]
+                order = list(dict.fromkeys(order))
+                desc = c19.mk(props, order, rng.choice(props) if props and rng.random() < 0.3 else None)
+            else:
+                desc, _ = gsv.gen_desc(rng, fields, depth=2, big_int_p=0)
+            ops.append({"op": "marshal", "args": {"desc": desc, "insts": [gs.gen_instance(rng, 2) for _ in range(2)]}, "meta": {"kw": 3, "marshal": True}})
+            continue
         if rng.random() < 0.7:
             draft = "2020" if rng.random() < 0.7 else "7"
             c = gs.Ctx(rng, draft, depth=rng.choice([2, 3]), meta=0.2)
@@ -51,6 +72,12 @@ def judge(o, go, m):
         return "skip", go.get("detail")
     if go.get("outcome") in ("panic", "timeout", "crash"):
         return "violation", "the real package %s" % go.get("outcome")
+    if o["op"] == "marshal":
+        if go.get("untouched") is False:
+            return "violation", "Marshal (or Resolve / Validate of the round trip) modified the Schema value"
+        if go.get("outcome") == "ok" and go.get("stable") is False:
+            return "violation", "repeated Marshal calls on one Schema value give different results"
+        return "agree", ""
     for k, what in (("repeatable", "results differ between repetitions (verdict vector or marshaled bytes)"),
                     ("schema_untouched", "the Schema tree was modified"),
                     ("instances_untouched", "an instance was modified by Validate"),
@@ -63,7 +90,7 @@ def judge(o, go, m):
         if H:
             return "known:" + H[0], ""
         return "violation", "outcome: real package %s, model %s" % (go.get("outcome"), mo.get("outcome"))
-    if go.get("outcome") == "resolved" and go.get("verdicts") != mo.get("verdicts"):
+    if go.get("outcome") == "resolved" and (go.get("verdicts") or []) != (mo.get("verdicts") or []):
         if H:
             return "known:" + H[0], ""
         return "violation", "verdicts: real package %r, model %r" % (go.get("verdicts"), mo.get("verdicts"))
